@@ -22,7 +22,7 @@ if os.path.exists('/verif/selftest/REGRESSIONS.tsv'):
     for r in csv.DictReader(open('/verif/selftest/REGRESSIONS.tsv'), delimiter='\t'):
         out.append(f"| {r['defect']} | {r['commit']} | {r['check']} | {'detected: ' + r['classes'].rstrip(';') if r['exit']=='1' else 'exit ' + r['exit']} |")
 out.append("")
-out.append("**Seeded changes from independent sub-agents** (each given only the property text and a scratch worktree; every one compiles, passes the 130 pinned tests and comes with a demonstration that fails with it and passes without it — re-confirmed by `tools/confirm_mutant.sh`, see `seeded/<name>/confirm.log`; results of `selftest/run_seeded.sh`, quick tier):\n")
+out.append("**Seeded changes from independent sub-agents** (each given only the property text and a scratch worktree - from the tenth round on also the list of the changes proposed before for that property, with the request not to repeat them; every one compiles, passes the 130 pinned tests and comes with a demonstration that fails with it and passes without it — re-confirmed by `tools/confirm_mutant.sh`, see `seeded/<name>/confirm.log`; results of `selftest/run_seeded.sh`, quick tier):\n")
 out.append("| change | what it is | needs | detected by its property's check (violation classes) |")
 out.append("|--------|------------|-------|------------------------------------------------------|")
 for f in sorted(glob.glob('/verif/seeded/*/meta.json')):
